@@ -92,7 +92,13 @@ def build_records(recs):
         a.multimapper = r["secondary"]
         a.polyA_found = r["polya"]
         a.assignment_type = ia.ReadAssignmentType[r["type"]]
-        a.gene_assignment_type = ia.ReadAssignmentType[r["type"]]
+        # gene-level type as ReadAssignment derives it: ambiguity among isoforms of one gene is unique at gene level
+        gt = r["type"]
+        if gt == "ambiguous" and len(r["genes"]) == 1:
+            gt = "unique"
+        elif gt == "inconsistent_ambiguous" and len(r["genes"]) == 1:
+            gt = "inconsistent"
+        a.gene_assignment_type = ia.ReadAssignmentType[gt]
         a.penalty_score = r["penalty"]
         a.isoforms = list(r["isoforms"])
         a.genes = list(r["genes"])
